@@ -191,7 +191,7 @@ func history(ctx context.Context, w *run.Worker, c *run.Case, concTouch bool) {
 			n1 := s.Alloc.Calls()
 			checkTaint()
 			w.Count("repeat_calls_checked", 1)
-			repeatOracle(c, w, s, cfg, "Get", aRet-a0, err2, wr1-wr0, n1-n0, s.KLM.KeysSince(kp0)[:kp1-kp0], s.KLM.KeysSince(kp1))
+			repeatOracle(c, w, s, cfg, "Get", aRet-a0, err2, wr1-wr0, n1-n0, copiedBetween(s, kp0, kp1), s.KLM.CopiedKeysSince(kp1))
 			if err2 != nil && !tainted {
 				if asm.IsNotFound(err2) {
 					observeAbsent(i, o, "repeated Get", allocs())
@@ -264,7 +264,7 @@ func history(ctx context.Context, w *run.Worker, c *run.Case, concTouch bool) {
 			n1 := s.Alloc.Calls()
 			checkTaint()
 			w.Count("repeat_calls_checked", 1)
-			repeatOracle(c, w, s, cfg, "FindMissing", aRet-a0, err2, wr1-wr0, n1-n0, s.KLM.KeysSince(kp0)[:kp1-kp0], s.KLM.KeysSince(kp1))
+			repeatOracle(c, w, s, cfg, "FindMissing", aRet-a0, err2, wr1-wr0, n1-n0, copiedBetween(s, kp0, kp1), s.KLM.CopiedKeysSince(kp1))
 			if err2 == nil {
 				for _, d := range missing2.Items() {
 					if !miss[d] && !tainted {
@@ -515,6 +515,14 @@ func (d *dfCounter) add(w *run.Worker, im *asm.IndexMetrics, c *run.Case) {
 // call is copied again by the repeat - unless the first call allocated more
 // blocks than there are "current" blocks, in which case its early copies can
 // already be old again and no implementation could avoid rewriting them.
+// copiedBetween returns the keys whose store in [from, to) followed a copy of
+// data (named a location for the first time).
+func copiedBetween(s *asm.Store, from, to int64) []local.Key {
+	all := s.KLM.CopiedKeysSince(from)
+	late := s.KLM.CopiedKeysSince(to)
+	return all[:len(all)-len(late)]
+}
+
 func repeatOracle(c *run.Case, w *run.Worker, s *asm.Store, cfg asm.Config, op string, allocatedByFirst int64, err2 error, writes, newBlocks int64, keys1, keys2 []local.Key) {
 	if err2 != nil {
 		return
@@ -537,7 +545,23 @@ func repeatOracle(c *run.Case, w *run.Worker, s *asm.Store, cfg asm.Config, op s
 	}
 	for _, k := range keys2 {
 		if first[k] {
-			c.Violation("localstore."+op+":repeated-call-recopies-object", "an object copied by the first %s (which allocated %d blocks) was copied again by the immediate repeat (%d data writes)", op, allocatedByFirst, writes)
+			var ks1, ks2 []string
+			for _, x := range keys1 {
+				ks1 = append(ks1, fmt.Sprintf("%x", x[:4]))
+			}
+			for _, x := range keys2 {
+				ks2 = append(ks2, fmt.Sprintf("%x", x[:4]))
+			}
+			var evs []string
+			for _, ev := range s.Log.Events() {
+				if strings.HasPrefix(ev.Kind, "klm.") || strings.HasPrefix(ev.Kind, "bl.") || strings.HasPrefix(ev.Kind, "alloc.") {
+					evs = append(evs, fmt.Sprintf("%s(%d,%d,%s)", ev.Kind, ev.A, ev.B, ev.S))
+				}
+			}
+			if len(evs) > 24 {
+				evs = evs[len(evs)-24:]
+			}
+			c.Violation("localstore."+op+":repeated-call-recopies-object", "an object copied by the first %s (which allocated %d blocks) was copied again by the immediate repeat (%d data writes); keys stored by the first call %v, by the repeat %v; recent events %v", op, allocatedByFirst, writes, ks1, ks2, evs)
 			return
 		}
 	}
